@@ -244,7 +244,7 @@ def norm(klass, v):
         return norm_atomic(klass, v)
     if is_seqof(klass) or is_listof(klass):
         return ("list",) + tuple(norm(klass.subtype, x) for x in v)
-    if is_arrayof(klass):
+    if is_arrayof(klass) or (inspect.isclass(klass) and issubclass(klass, Array) and getattr(klass, "subtype", None) is not None):
         items = v.value[1:] if isinstance(v, Array) else v
         return ("array",) + tuple(norm(klass.subtype, x) for x in items)
     if inspect.isclass(klass) and issubclass(klass, Choice):
